@@ -71,12 +71,12 @@ CHECKS = {
     ),
     "C15": dict(
         text="(a) For every conditional over formula trees of depth <= 1 on {a,b,Top,Bottom} (exhaustive) and sampled deeper ones, the clause sets of belief_base_to_cnf/query_to_cnf are decided per total assignment by independent SAT calls and TLC compares them with the truth table it evaluates from the trees. (b) Every MCS enumeration call recorded while System W / lex / c-inference run (rc2 with several SAT engines, z3) and direct calls on synthetic hard/soft/ignore combinations are validated by TLC against the inclusion-minimal falsification sets, each exactly once, empty iff the hard part is unsatisfiable. The enumeration loop is a TLA+ state machine (McsEnum.tla) model-checked for all families over 3 keys and EVERY order in which models may arrive (so for every SAT engine), and the rc2 loop's recorded model sequence is validated step by step against it (Trace_McsEnum).",
-        note="Trusted: PySAT minisat22 for the per-assignment SAT calls of the recorder; atoms located in the id pool by name.",
+        note="Trusted: PySAT minisat22 for the per-assignment SAT calls of the recorder; atoms located in the id pool by name. The exactness of enumerate-until-unsat + minimal filter is additionally proved by TLAPS for any family (spec/McsLemma.tla), re-checked on every run.",
         ref="6 C15", tech="TLC trace validation of recorded CNFs and MCS calls against TLA+ definitions (EvalTree, MinimalSets)",
     ),
     "C13": dict(
         text="Manager.tla models the call machine as the code structures it (CallStart, PrepSkip/Run/Refuse, Answer in submission order or Spawn + WorkerDone in any order, CallReturn/CallRaise); TLC checks all histories within small bounds and shows that the originally coded text-keyed plumbing variant violates RowsOwnKey. Histories (seeded, and TLC-simulated behaviours) are executed on real managers of every operator/back-end/mode under an external recorder and each recorded trace is validated by TLC against the machine: every event must be matched by the spec action with the logged fields bound, rows must equal the spec's table, no child process may be alive at return. The repository's own tests run under the same recorder (pytest plugin) and every manager they create is validated the same way.",
-        note="Reference answer of a query = its answer alone on a fresh manager. Scenarios include queries over atoms outside the base and literal sweeps (all 36 conditionals between literals over 3 atoms in long sequential batches). Every returned row's descriptive columns must repeat the manager's configuration. Worker completion orders are varied by delays, not enumerated on the real code (they are enumerated in the model).",
+        note="Reference answer of a query = its answer alone on a fresh manager. Scenarios include queries over atoms outside the base and literal sweeps (all 36 conditionals between literals over 3 atoms in long sequential batches). Every returned row's descriptive columns must repeat the manager's configuration. The by-index plumbing lemma (spec/ManagerLemma.tla) is proved by TLAPS for any batch size and re-checked on every run. Worker completion orders are varied by delays, not enumerated on the real code (they are enumerated in the model).",
         ref="6 C13", tech="TLA+ state machine model-checked by TLC; TLC trace validation of recorded executions (IsEvent pattern); TLC-simulated behaviours replayed",
     ),
     "C14": dict(
